@@ -87,6 +87,31 @@ pub fn draw_batch(seed: u64, tier: &str, extra: &[(String, Desc, String)]) -> Dr
             }
         }
     }
+    // hand-written corpus: feature combinations the random strata reach only on some seeds (every run, LE and BE)
+    let mut files: Vec<PathBuf> = std::fs::read_dir(format!("{VERIF}/corpus")).map(|r| r.filter_map(|e| e.ok()).map(|e| e.path()).filter(|p| p.extension().map(|x| x == "pdl").unwrap_or(false)).collect()).unwrap_or_default();
+    files.sort();
+    for f in files {
+        let name = f.file_name().unwrap().to_string_lossy().to_string();
+        let text = match std::fs::read_to_string(&f) {
+            Ok(t) => t,
+            Err(_) => continue,
+        };
+        match crate::compile::desc_of_text(&name, &text) {
+            Ok(d) => {
+                let mut twin = d.clone();
+                twin.big = !d.big;
+                let origin = format!("corpus:{name}");
+                let a = add(d, "rust", vec![origin.clone()], origin.clone(), None, &mut descs, &mut code, &mut dropped);
+                if let Some(a) = a {
+                    let b = add(twin, "rust", vec![origin.clone()], origin, Some(a), &mut descs, &mut code, &mut dropped);
+                    if let Some(b) = b {
+                        descs[a].twin = Some(b);
+                    }
+                }
+            }
+            Err(e) => dropped.push((text, format!("corpus file {name}: {e}"))),
+        }
+    }
     for (origin, d, profile) in extra {
         add(d.clone(), profile, vec![], origin.clone(), None, &mut descs, &mut code, &mut dropped);
     }
